@@ -54,7 +54,7 @@ func (e *Engine) matchKeys(pats []string) []string {
 		if fc.Trusted {
 			continue
 		}
-		if _, ok := e.Funcs[k]; !ok {
+		if e.lookupFunc(k) == nil && !fc.IsLemma {
 			continue
 		}
 		for _, p := range pats {
